@@ -868,3 +868,53 @@ func (c *Ctx) opsSentOn(fn *ssa.Function, field string) []*ssa.Function {
 	}
 	return out
 }
+
+// resolveParam follows a value that is a parameter to the corresponding arguments at the call sites of its function
+// inside the package (up to three levels); other values are returned as they are.
+func (c *Ctx) resolveParam(v ssa.Value, rel string) []ssa.Value {
+	var out []ssa.Value
+	var walk func(v ssa.Value, depth int)
+	walk = func(v ssa.Value, depth int) {
+		prm, isP := v.(*ssa.Parameter)
+		if !isP || depth > 3 {
+			out = append(out, v)
+			return
+		}
+		fn := prm.Parent()
+		idx := -1
+		for i, q := range fn.Params {
+			if q == prm {
+				idx = i
+			}
+		}
+		n := 0
+		for _, g := range c.RepoFuncs(rel) {
+			for _, b := range g.Blocks {
+				for _, ins := range b.Instrs {
+					ci, ok := ins.(ssa.CallInstruction)
+					if !ok {
+						continue
+					}
+					cc := ci.Common()
+					var callee *ssa.Function
+					switch cv := cc.Value.(type) {
+					case *ssa.Function:
+						callee = cv
+					case *ssa.MakeClosure:
+						callee, _ = cv.Fn.(*ssa.Function)
+					}
+					if callee != fn || cc.IsInvoke() || idx >= len(cc.Args) {
+						continue
+					}
+					n++
+					walk(cc.Args[idx], depth+1)
+				}
+			}
+		}
+		if n == 0 {
+			out = append(out, v)
+		}
+	}
+	walk(v, 0)
+	return out
+}
